@@ -167,7 +167,7 @@ func checkC11cut(p *Parser, R0, r *CallResult, faults []kernel.Fault, recoverOn 
 		pv := r.Injected[exps[len(exps)-1].inj]
 		wantEsc := pv.Msg
 		switch pv.Kind {
-		case "panic-err":
+		case "panic-err", "panic-runtime":
 			wantEsc = "err(" + pv.Msg + ")"
 		case "panic-str":
 			wantEsc = "s" + fmt.Sprintf("%q", pv.Msg)
@@ -362,7 +362,7 @@ func checkC11cut(p *Parser, R0, r *CallResult, faults []kernel.Fault, recoverOn 
 	return "", "", nil
 }
 
-var faultKinds = []string{"err", "panic-err", "panic-str", "panic-int", "panic-struct", "panic-stringer", "panic-badstringer", "errnested", "errdup", "errlate"}
+var faultKinds = []string{"err", "panic-err", "panic-str", "panic-int", "panic-struct", "panic-stringer", "panic-badstringer", "panic-runtime", "errnested", "errdup", "errlate"}
 
 // campaignC11 records the fault-free execution and then injects faults at the
 // code-block invocations of that execution.
@@ -417,7 +417,7 @@ func campaignC11(p *Parser, req *Request, resp *Response) {
 		evs := R0.Events
 		if len(evs) <= singleMax {
 			for i := range evs {
-				for k, kind := range faultKinds[:8] {
+				for k, kind := range faultKinds[:9] {
 					// every event gets err and panic-err; the other payloads rotate
 					if k >= 2 && (i+k)%3 != 0 {
 						continue
@@ -429,7 +429,7 @@ func campaignC11(p *Parser, req *Request, resp *Response) {
 		} else {
 			for j := 0; j < 2*singleMax; j++ {
 				e := evs[simrt.Choose(len(evs))]
-				sets = append(sets, []kernel.Fault{{Site: e.Site, N: e.N, Kind: faultKinds[simrt.Choose(8)]}})
+				sets = append(sets, []kernel.Fault{{Site: e.Site, N: e.N, Kind: faultKinds[simrt.Choose(9)]}})
 			}
 		}
 		// every site that ran more than once at one offset gets one set that makes
@@ -478,7 +478,7 @@ func campaignC11(p *Parser, req *Request, resp *Response) {
 					case c == 7:
 						kind = "errlate"
 					case c == 9:
-						kind = faultKinds[1+simrt.Choose(6)]
+						kind = faultKinds[1+simrt.Choose(7)]
 					}
 					set = append(set, kernel.Fault{Site: e.Site, N: e.N, Kind: kind})
 				}
